@@ -160,7 +160,7 @@ func init() {
 					cases = append(cases, Case{"kind": "x", "cmd": exploreCmds[4+(ci+off)%5], "stdin": []byte(t[:off]), "note": fmt.Sprintf("yaml%d[:%d]", ci, off)})
 				}
 			}
-			junk := []string{"\xff\xfe", "\x00", "\xc3", "\xe2\x99", "{", "}", "[", "]", "_", ";", "=", ",", "/", "#", "♭", "0", "9999999999999999999999", "R", "C", "\n", " ", "- ", ": ", "\"", "'", "!!binary ", "&a ", "*a ", "|", ">", "%", "\t"}
+			junk := []string{"\xff\xfe", "\x00", "\xc3", "\xe2\x99", "{", "}", "[", "]", "_", ";", "=", ",", "/", "#", "♭", "0", "9999999999999999999999", "19999999999999999", "18446744073709551615", "4294967296", "65536", "R", "C", "\n", " ", "- ", ": ", "\"", "'", "!!binary ", "&a ", "*a ", "|", ">", "%", "\t"}
 			for i := 0; i < n; i++ {
 				cmd := exploreCmds[rng.Intn(len(exploreCmds))]
 				var base string
